@@ -16,7 +16,7 @@ func init() {
 	register(func() {
 		engine.Register(&engine.Check{
 			ID: "C13", Level: "exploration", Risky: true,
-			Rule: "(event stream, target) pairs on the real Unfolder: (1) every tree of <=N nodes over a leaf alphabet of all scalar kinds, delivered with strings/keys by value and by reference, into interface{}, []interface{} and map[string]interface{}; all extended events in 3 positions; (2) numeric cross product: every integer/float event kind x boundary value x every numeric target width (+ pointer, slice element with and without element-type hint, map value); (3) objects of up to 3 members over a 10-shape member alphabet (scalars, nested arrays/objects, typed arrays, extended events, by-reference strings inside) x struct targets built with reflect.StructOf that have a field for any subset of the members (the others are unknown and must be skipped with their whole value), plus a sentinel field and a '-' field that must stay untouched; (4) custom unfolders: an Expander target, a registered stateful UnfoldState, primitive and processing unfolders, at top level, as struct field, slice element and map value, for every scalar event kind x boundary value alone and inside arrays/objects - the custom state must receive exactly the stream's events and numbers; oracle: reference unfolder model.RefUnfold (exact generic value; matching fields assigned; numeric conversion exact whenever the value fits; no expectation otherwise) compared with model.SameGo; a case = (stream, delivery variant, target type); non-trivial = container stream or converting numeric pair",
+			Rule:        "(event stream, target) pairs on the real Unfolder: (1) every tree of <=N nodes over a leaf alphabet of all scalar kinds, delivered with strings/keys by value and by reference, into interface{}, []interface{} and map[string]interface{}; all extended events in 3 positions; (2) numeric cross product: every integer/float event kind x boundary value x every numeric target width (+ pointer, slice element with and without element-type hint, map value); (3) objects of up to 3 members over a 10-shape member alphabet (scalars, nested arrays/objects, typed arrays, extended events, by-reference strings inside) x struct targets built with reflect.StructOf that have a field for any subset of the members (the others are unknown and must be skipped with their whole value), plus a sentinel field and a '-' field that must stay untouched; (4) custom unfolders: an Expander target, a registered stateful UnfoldState, primitive and processing unfolders, at top level, as struct field, slice element and map value, for every scalar event kind x boundary value alone and inside arrays/objects - the custom state must receive exactly the stream's events and numbers; oracle: reference unfolder model.RefUnfold (exact generic value; matching fields assigned; numeric conversion exact whenever the value fits; no expectation otherwise) compared with model.SameGo; a case = (stream, delivery variant, target type); non-trivial = container stream or converting numeric pair",
 			Assumptions: []string{"targets start zero (plus sentinels); merging into pre-filled containers is not explored", "where the value does not fit the target or the shape mismatches the statement makes no promise: only C14's no-crash oracle applies (counted as unspecified)"},
 			Families:    c13Families,
 			Require:     []string{"generic_compared", "numeric_compared", "struct_compared", "unknown_members_skipped", "custom_compared"},
